@@ -50,6 +50,31 @@ func verifVertex(name string, wx, wy, W int, mode int) (fx, fy float64, p verifP
 	return verifDyadicOf(x, 10), verifDyadicOf(y, 10), verifPt{x, y}
 }
 
+// verifVertexWH: like verifVertex with a window of Ww x Wh pixels.
+func verifVertexWH(name string, wx, wy, Ww, Wh int, mode int) (fx, fy float64, p verifPt) {
+	px, py := wx, wy
+	if Ww > 1 {
+		px += verifConcretizeInt(int(verifNondetInt(name+".px", 0, int64(Ww-1))))
+	}
+	if Wh > 1 {
+		py += verifConcretizeInt(int(verifNondetInt(name+".py", 0, int64(Wh-1))))
+	}
+	x := int64(px)*verifSub + verifOffset(name+".u", mode)
+	y := int64(py)*verifSub + verifOffset(name+".v", mode)
+	return verifDyadicOf(x, 10), verifDyadicOf(y, 10), verifPt{x, y}
+}
+
+func verifRingWH(name string, n, wx, wy, Ww, Wh, mode int) ([][2]float64, []verifPt) {
+	ring := make([][2]float64, n)
+	L := make([]verifPt, n)
+	for i := 0; i < n; i++ {
+		fx, fy, p := verifVertexWH(name+verifItoa(i), wx, wy, Ww, Wh, mode)
+		ring[i] = [2]float64{fx, fy}
+		L[i] = p
+	}
+	return ring, L
+}
+
 func verifRing(name string, n, wx, wy, W, mode int) ([][2]float64, []verifPt) {
 	ring := make([][2]float64, n)
 	L := make([]verifPt, n)
